@@ -96,6 +96,13 @@ def observe(ctx, models, types, tag):
             exp = [a.comps[T] for a in mm.residents if T in a.comps]
             got = sm[T]
             got2 = sm.get_components(T)
+            if ctx.counters.get('listing_comparisons', 0) % 7 == 0:
+                from vlib import reps
+                got3 = reps.deprecated_call(sm.getComponents, T)            # deprecated spelling: the same listing
+                ctx.count('deprecated_alias_calls')
+                if (got3 is None) != (got2 is None) or (got3 is not None and not same_objects(got3, got2)):
+                    diffs.append((mm, T, [a.comps[T] for a in mm.residents if T in a.comps], got3 or [], 'getComponents() differs from get_components()'))
+                    continue
             ctx.ev()
             ctx.count('listing_comparisons')
             if not exp:
@@ -320,7 +327,12 @@ def case_history(ctx, case):
             if lack and (not have or rng.random() < 0.55):
                 T = rng.choice(lack)
                 c = new_comp(a, T)
-                a.real.add_component(c)
+                if rng.random() < 0.1:
+                    from vlib import reps
+                    reps.deprecated_call(a.real.addComponent, c)
+                    ctx.count('deprecated_alias_calls')
+                else:
+                    a.real.add_component(c)
                 a.comps[T] = c
                 trace.append(f'attach {T.__name__} {a.real.id}/{mm.name} resident={resident_now}')
                 ctx.count('attach_resident' if resident_now else 'attach_offline')
@@ -336,7 +348,12 @@ def case_history(ctx, case):
             elif have:
                 T = rng.choice(have)
                 c = a.comps.pop(T)
-                a.real.remove_component(T)
+                if rng.random() < 0.1:
+                    from vlib import reps
+                    reps.deprecated_call(a.real.removeComponent, T)
+                    ctx.count('deprecated_alias_calls')
+                else:
+                    a.real.remove_component(T)
                 trace.append(f'detach {T.__name__} {a.real.id}/{mm.name} resident={resident_now}')
                 ctx.count('detach_resident' if resident_now else 'detach_offline')
                 if resident_now:
